@@ -73,6 +73,7 @@ E_Remine(tx, n, st)     == Remine(tx, n, st) /\ Touch({tx}) /\ WUnch
 E_Drop(tx)              == DropReceipt(tx) /\ Touch({tx}) /\ WUnch
 E_Fail(tx)              == FailTx(tx) /\ Touch({tx}) /\ WUnch
 E_Arm(kind)             == Arm(kind) /\ UNCHANGED wvars
+E_Disarm(kind)          == Disarm(kind) /\ UNCHANGED wvars
 
 ---------------------------------------------------------------------------
 \* L: log intake.  The node delivers a log on the subscription iff it matches the filter the watcher
